@@ -434,6 +434,20 @@ def gen_case(r, cid, big=False):
     calls = r.shuffle(calls)
     case = {"id": cid, "docs": docs, "sheets": sheets, "decls": decls, "calls": calls, "rtf": rtf}
     case.update(ws)
+    # namespace declarations around the names (XSLT 2.4): a default namespace on xsl:stylesheet (per module), on the xsl:key
+    # element, on the template holding the key() calls, on the instruction holding a call — independently; prefixed names
+    # through a stylesheet-level prefix, a prefix declared on the element itself, or a stylesheet-level prefix re-declared
+    # there for another URI
+    def modes(n):
+        return [[j, r.choice(["local", "local", "rebind"])] for j in range(n) if r.chance(1, 4)]
+    case["nsopt"] = {
+        "sheet_default": [sid for (sid, _, _) in sheets if r.chance(1, 4)],
+        "key_default": [j for j in range(len(decls)) if r.chance(1, 4)],
+        "tmpl_default": r.chance(1, 4),
+        "call_default": [i for i in range(len(calls)) if r.chance(1, 5)],
+        "key_mode": modes(len(decls)),
+        "call_mode": modes(len(calls) + 2),
+    }
     if r.chance(1, 12):
         # error scenario: a name no module declares (or no declaration at all)
         if r.chance(1, 4):
@@ -470,6 +484,56 @@ def lex_name(r_or_none, name, salt=0):
         ps = NSMAP[uri]
         return ps[salt % len(ps)] + ":" + local
     return name
+
+
+DEFAULT_NS = "urn:d"
+
+
+def sheet_ctx(case, sid):
+    """namespace declarations on the xsl:stylesheet element of module sid: the prefixes of NSMAP and, for the modules
+    listed in nsopt.sheet_default, a default namespace"""
+    b = [(p, u) for u, ps in sorted(NSMAP.items()) for p in ps]
+    if sid in (case.get("nsopt") or {}).get("sheet_default", []):
+        b.append(("", DEFAULT_NS))
+    return b
+
+
+def name_site(case, kind, j, name, sid):
+    """how the expanded name `name` is written at a site (kind 'key': the j-th xsl:key declaration, 'call': the j-th key() call):
+    -> (lexical QName, namespace declarations to put on the element itself, all bindings in scope there, outermost first).
+    XSLT 2.4: the default namespace never applies to the name of an XSLT object; a prefix is expanded with the innermost
+    declaration in scope at the point of use."""
+    o = case.get("nsopt") or {}
+    ctx = sheet_ctx(case, sid)
+    attrs = ""
+    if kind == "call" and o.get("tmpl_default"):
+        ctx.append(("", DEFAULT_NS))          # xmlns="urn:d" on the xsl:template holding the calls
+    if j in o.get(kind + "_default", []):
+        attrs += ' xmlns="%s"' % DEFAULT_NS
+        ctx.append(("", DEFAULT_NS))
+    mode = dict((a, b) for a, b in o.get(kind + "_mode", [])).get(j, "global")
+    if name.startswith("{"):
+        uri, local = name[1:].split("}")
+        if mode == "local":              # a prefix declared on the element itself
+            pfx = "l%s%d" % (kind[0], j)
+        elif mode == "rebind":           # a stylesheet-level prefix of another URI, re-declared on the element
+            pfx = [ps[0] for u, ps in sorted(NSMAP.items()) if u != uri][0]
+        else:
+            pfx = None
+        if pfx is None:
+            ps = NSMAP[uri]
+            lex = ps[j % len(ps)] + ":" + local
+        else:
+            attrs += ' xmlns:%s="%s"' % (pfx, uri)
+            ctx.append((pfx, uri))
+            lex = pfx + ":" + local
+    else:
+        lex = name
+    return lex, attrs, ctx
+
+
+def ctx_token(ctx):
+    return ";".join("%s=%s" % (p, u) for p, u in ctx) or "-"
 
 
 def pattern_as_nodeset(pat, base=""):
@@ -514,20 +578,26 @@ def render_sheet(case, sid):
     nsd = "".join(' xmlns:%s="%s"' % (p, u) for u, ps in sorted(NSMAP.items()) for p in ps)
     nsd += ' xmlns:x="http://xml.apache.org/xalan"'
     rtf = case.get("rtf", [])
+    if sid in (case.get("nsopt") or {}).get("sheet_default", []):
+        nsd += ' xmlns="%s"' % DEFAULT_NS
     out = ['<?xml version="1.0"?><xsl:stylesheet version="1.0" xmlns:xsl="%s"%s>' % (XSLNS, nsd)]
     for (s, par, kind) in case["sheets"]:
         if par == sid and kind == "import":
             out.append('<xsl:import href="%s"/>' % module_file(s))
-    own = [d for d in case["decls"] if d[0] == sid]
+    own = [(j, d) for j, d in enumerate(case["decls"]) if d[0] == sid]
+
+    def key_elem(j, d):
+        lex, attrs, _ = name_site(case, "key", j, d[1], sid)
+        return '<xsl:key%s name="%s" match="%s" use="%s"/>' % (attrs, lex, d[2], d[3])
     incs = [s for (s, par, kind) in case["sheets"] if par == sid and kind == "include"]
     # first half of the own declarations, the includes, the rest
     h = len(own) // 2
-    for i, (_, name, pat, use) in enumerate(own[:h]):
-        out.append('<xsl:key name="%s" match="%s" use="%s"/>' % (lex_name(None, name, i), pat, use))
+    for (j, d) in own[:h]:
+        out.append(key_elem(j, d))
     for s in incs:
         out.append('<xsl:include href="%s"/>' % module_file(s))
-    for i, (_, name, pat, use) in enumerate(own[h:]):
-        out.append('<xsl:key name="%s" match="%s" use="%s"/>' % (lex_name(None, name, i + 1), pat, use))
+    for (j, d) in own[h:]:
+        out.append(key_elem(j, d))
     if sid == 0:
         out.append('<xsl:output method="text"/>')
         out.append('<xsl:decimal-format name="df"/><xsl:decimal-format name="q:df"/>')
@@ -539,11 +609,11 @@ def render_sheet(case, sid):
         out.append('<xsl:variable name="D0" select="/"/>')
         for k in range(1, nd):
             if k in rtf:
-                out.append('<xsl:variable name="F%d">%s</xsl:variable><xsl:variable name="D%d" select="x:nodeset($F%d)"/>'
+                out.append('<xsl:variable name="F%d" xmlns="">%s</xsl:variable><xsl:variable name="D%d" select="x:nodeset($F%d)"/>'
                            % (k, doc_literal(case["docs"][k]), k, k))
             else:
                 out.append('<xsl:variable name="D%d" select="document(\'d%d.xml\')"/>' % (k, k))
-        out.append('<xsl:template match="/">')
+        out.append('<xsl:template match="/"%s>' % (' xmlns="%s"' % DEFAULT_NS if (case.get("nsopt") or {}).get("tmpl_default") else ""))
         gid = '<xsl:value-of select="generate-id()"/><xsl:text> </xsl:text>'
         for k in range(nd):
             out.append('<xsl:text>L %d </xsl:text><xsl:for-each select="$D%d">%s</xsl:for-each>'
@@ -566,7 +636,8 @@ def render_sheet(case, sid):
             if c.get("doc2") is not None:
                 bm2, br2 = brute(case["decls"], c["name"], rhs, "$D%d" % c["doc2"])
                 bmain, broot = "%s|%s" % (bmain, bm2), "%s|%s" % (broot, br2)
-            kcall = "key('%s',%s)" % (lex_name(None, c["name"], i), rhs)
+            clex, cattrs, _ = name_site(case, "call", i, c["name"], 0)
+            kcall = "key('%s',%s)" % (clex, rhs)
             form = c.get("form", "top")
             if form == "top":
                 ksel = kcall
@@ -587,12 +658,12 @@ def render_sheet(case, sid):
                 extra = ('<xsl:text>X param </xsl:text><xsl:call-template name="show"><xsl:with-param name="P" select="%s"/>'
                          '</xsl:call-template>' % ksel)
             elif ex == "avt":
-                extra = ('<xsl:variable name="T"><e a="{count(%s)}"/></xsl:variable><xsl:text>X avt </xsl:text>'
+                extra = ('<xsl:variable name="T" xmlns=""><e a="{count(%s)}"/></xsl:variable><xsl:text>X avt </xsl:text>'
                          '<xsl:value-of select="x:nodeset($T)/e/@a"/>' % ksel)
             elif ex == "sort":
                 extra = ('<xsl:text>X sort </xsl:text><xsl:for-each select="%s"><xsl:sort select="count(.|%s)=count(%s)"/>%s'
                          '</xsl:for-each>' % (alld, kcall, kcall, gid))
-            out.append('<xsl:for-each select="%s">%s<xsl:variable name="K" select="%s"/>'
+            out.append('<xsl:for-each%s select="%s">%s<xsl:variable name="K" select="%s"/>'
                        '<xsl:variable name="B" select="%s"/><xsl:variable name="R" select="%s"/>'
                        '<xsl:text>Q %d </xsl:text><xsl:value-of select="count($K)"/><xsl:text> </xsl:text>'
                        '<xsl:value-of select="count($B)"/><xsl:text> </xsl:text><xsl:value-of select="count($K|$B)"/>'
@@ -600,7 +671,7 @@ def render_sheet(case, sid):
                        '<xsl:text>B </xsl:text><xsl:for-each select="$B">%s</xsl:for-each>'
                        '<xsl:text>R </xsl:text><xsl:for-each select="$R">%s</xsl:for-each>%s<xsl:text>&#10;</xsl:text>'
                        '</xsl:for-each>'
-                       % (ctx, pre, ksel, bmain, broot, i, gid, gid, gid, extra))
+                       % (cattrs, ctx, pre, ksel, bmain, broot, i, gid, gid, gid, extra))
         out.append('</xsl:template>')
         out.append('<xsl:template name="show"><xsl:param name="P"/><xsl:for-each select="$P">%s</xsl:for-each></xsl:template>' % gid)
     out.append('</xsl:stylesheet>')
@@ -620,17 +691,19 @@ def request_lines(case):
         if kind == "include":
             continue
         ls.append("sheet %d %s" % (sid, "-" if par is None else str(owner(case, par))))
-    for (sid, name, pat, use) in case["decls"]:
-        ls.append("decl %d %s %s %s" % (owner(case, sid), name, pat, use))
-    for c in case["calls"]:
+    for j, (sid, name, pat, use) in enumerate(case["decls"]):
+        lex, _, nctx = name_site(case, "key", j, name, sid)
+        ls.append("decl %d %s %s %s %s" % (owner(case, sid), lex, pat, use, ctx_token(nctx)))
+    for i, c in enumerate(case["calls"]):
+        lex, _, nctx = name_site(case, "call", i, c["name"], 0)
         for d in call_docs(c):
-            head = "call %d %d %s %s %s" % (d, c.get("cur", c["doc"]), "p" if c["name"].startswith("{") else "u",
-                                           "top" if c.get("form", "top") == "top" else "pred", c["name"])
+            head = "call %d %d %s %s %s" % (d, c.get("cur", c["doc"]), "p" if ":" in lex else "u",
+                                           "top" if c.get("form", "top") == "top" else "pred", lex)
             if c["kind"] == "str":
-                ls.append("%s str %s" % (head, tok(c["value"])))
+                ls.append("%s str %s %s" % (head, tok(c["value"]), ctx_token(nctx)))
             else:
                 ad = str(c["argdoc"]) + ("+%d" % c["argdoc2"] if c.get("argdoc2") is not None else "")
-                ls.append("%s ns %s %s" % (head, ad, c["pat"]))
+                ls.append("%s ns %s %s %s" % (head, ad, c["pat"], ctx_token(nctx)))
     for k, d in enumerate(case["docs"]):
         if k not in case.get("rtf", []):
             ls.append("file %s %s" % ("main.xml" if k == 0 else "d%d.xml" % k, hexs(doc_xml(d, strip_pred(case)))))
